@@ -95,14 +95,16 @@ func (s *memoryStore) AddNodeBalance(nodeID store.NodeID, credit *big.Int) error
 	if !ok {
 		return store.ErrUnregisteredNode
 	}
+	// Balances are handed out by value and copies of a big.Int share their
+	// digits, so credit is added into a fresh big.Int rather than in place.
 	account, ok := s.accounts[nodeID]
 	if ok {
 		balance := s.balances[account]
-		balance.Credit.Add(&balance.Credit, credit)
+		balance.Credit = *new(big.Int).Add(&balance.Credit, credit)
 		s.balances[account] = balance
 	} else {
 		balance := s.trials[nodeID]
-		balance.Credit.Add(&balance.Credit, credit)
+		balance.Credit = *new(big.Int).Add(&balance.Credit, credit)
 		s.trials[nodeID] = balance
 	}
 	return nil
@@ -121,7 +123,7 @@ func (s *memoryStore) AddAccountBalance(account store.Account, credit *big.Int) 
 	defer s.mu.Unlock()
 
 	balance := s.balances[account]
-	balance.Credit.Add(&balance.Credit, credit)
+	balance.Credit = *new(big.Int).Add(&balance.Credit, credit)
 	balance.Account = account
 	s.balances[account] = balance
 	return nil
@@ -143,7 +145,7 @@ func (s *memoryStore) AddAccountNode(account store.Account, nodeID store.NodeID)
 	balance := s.balances[account]
 	s.accounts[nodeID] = account
 	trialBalance := s.trials[nodeID]
-	balance.Credit.Add(&balance.Credit, &trialBalance.Credit)
+	balance.Credit = *new(big.Int).Add(&balance.Credit, &trialBalance.Credit)
 	balance.Account = account
 	delete(s.trials, nodeID)
 	s.balances[account] = balance
